@@ -158,7 +158,7 @@ SerdeRel(op, a, r) ==
 \* Integer projections of floating-point results (computed by the recorder in f64 from the native values).
 \* The model knows the exact rational inputs, so it knows which side of each threshold they are on.
 IsIntTup(x, n) == x.t = "Tup" /\ Len(x.c) = n
-ProjOps == {"slerp_proj", "nlerp_proj", "slerp_axis_proj", "look_proj", "arc_proj", "small_rot_proj", "norm_proj", "trig_big_proj", "tiny_inv_proj", "slab_proj", "scale_proj", "cross_near_proj", "unit_roundtrip", "normalize_native", "turn_div_exact", "full_turn_value", "euler_proj"}
+ProjOps == {"slerp_proj", "nlerp_proj", "slerp_axis_proj", "look_proj", "arc_proj", "small_rot_proj", "norm_proj", "trig_big_proj", "tiny_inv_proj", "slab_proj", "scale_proj", "cross_near_proj", "mm_col_proj", "look_mag_proj", "deep_proj", "angle_near_proj", "lerp_end_proj", "unit_roundtrip", "normalize_native", "turn_div_exact", "full_turn_value", "euler_proj"}
 ProjRel(op, k, a, r) ==
   LET wide == k = "f32" IN
   CASE op \in {"slerp_proj", "nlerp_proj"} ->
@@ -178,8 +178,9 @@ ProjRel(op, k, a, r) ==
     \* dir z sign, up off the plane x = 0, up y sign, eye off the origin>> in machine epsilons / signs.  The handedness the
     \* model expects: Rotation::look_at and *_lh are left-handed (dir to +z), *_rh right-handed, deprecated Matrix4 aliases
     \* right-handed, deprecated Matrix3::look_at left-handed, the deprecated Transform::look_at either.
-    [] op = "look_proj" ->
-         LET inner == Sc(a, 1)  fm == Sc(a, 2)  ty == IF a[3].t = "T" THEN Sc(a, 3) ELSE ""
+    [] op \in {"look_proj", "look_mag_proj"} ->
+         LET inner == Sc(a, 1)  fm == Sc(a, 2)  off == IF op = "look_mag_proj" THEN 2 ELSE 0     \* two exponents follow the names
+             ty == IF a[3 + off].t = "T" THEN Sc(a, 3 + off) ELSE ""
              hands == CASE inner = "mat3_look_to" -> (IF fm = "rh" THEN {-1} ELSE {1})
                         [] inner \in {"mat4_look_to", "mat4_look_at"} -> (IF fm = "lh" THEN {1} ELSE {-1})
                         [] inner = "rot_look_at" -> {1}
@@ -214,18 +215,20 @@ ProjRel(op, k, a, r) ==
          /\ IF ty \in {"Basis2", "Matrix2"}
             THEN Dot(a[3].c, a[3].c) = One /\ route \in {"direct", "invert", "compose"}
             ELSE /\ ty \in {"Quaternion", "Matrix3", "Basis3", "Matrix4"}
-                 /\ Dot(a[3].c, a[3].c) = One /\ Dot(a[4].c, a[4].c) = One /\ Dot(a[3].c, a[4].c) = Zero
+                 /\ Dot(a[3].c, a[3].c) = One /\ Dot(a[4].c, a[4].c) = One              \* unit axis, unit vector (any angle between them)
                  /\ route \in {"direct", "from_angle", "euler", "to_euler", "rotate_vector", "invert", "compose", "via_quat", "via_mat3", "via_basis3", "via_mat4"}
          /\ r.c[1].c[1] <= 256 /\ r.c[2].c[1] <= 64
     \* C11 close to unit length: normalising x (1 + g), x an exact unit vector, gives x back to rounding
     [] op = "norm_proj" -> /\ IsIntTup(r, 4) /\ Dot(a[1].c, a[1].c) = One /\ \A i \in 1..4 : r.c[i].c[1] <= 16
     \* C13 far from the first turn: the functions of Rad(x) are the real functions of x, whatever the number of turns
-    [] op = "trig_big_proj" -> /\ IsIntTup(r, 5) /\ \A i \in 1..5 : r.c[i].c[1] <= 64
+    [] op = "trig_big_proj" -> /\ IsIntTup(r, 10) /\ \A i \in 1..10 : r.c[i].c[1] <= 64
     \* C08 with a small scale: the model checks the premise (non-zero; for a Decomposed transform not negligibly small; unit
     \* rotation), the recorder reports <<inverse exists, vector round trip, point round trip>> in eps
     [] op = "tiny_inv_proj" ->
-         /\ IsIntTup(r, 3) /\ Sc(a, 2) # Zero /\ Dot(a[3].c, a[3].c) = One
-         /\ (Sc(a, 1) \in {"DecQ", "Dec3", "DecQ_vector"} => ~RAbsLe(Sc(a, 2), <<1, 1000000>>))
+         /\ IsIntTup(r, 3) /\ Dot(a[3].c, a[3].c) = One
+         \* (single precision logs a scale of a few millionths as 0: the premise on the scale is checked on the other scalars)
+         /\ (k # "f32" => /\ Sc(a, 2) # Zero
+                          /\ (Sc(a, 1) \in {"DecQ", "Dec3", "DecQ_vector"} => ~RAbsLe(Sc(a, 2), <<1, 1000000>>)))
          /\ r.c[1].c[1] = TRUE /\ r.c[2].c[1] <= 256 /\ r.c[3].c[1] <= 256
     \* C10 with far = near (1 + g): accepted (near # far), near plane to -1 and far plane to +1 (in units of eps / g)
     [] op = "slab_proj" -> /\ IsIntTup(r, 3) /\ RGt(Sc(a, 2), Zero) /\ r.c[1].c[1] = TRUE /\ r.c[2].c[1] <= 64 /\ r.c[3].c[1] <= 64
@@ -238,9 +241,19 @@ ProjRel(op, k, a, r) ==
          /\ IsIntTup(r, 2)
          /\ Sc(a, 1) \in {"m4_invert", "m4_inverse_transform", "m3_invert", "m2_invert", "m4_det", "m3_det", "m4_transform_point", "from_homogeneous",
                           "q_invert", "q_normalize", "v3_normalize", "v2_normalize", "v4_normalize", "v3_magnitude", "v3_angle", "v2_angle",
-                          "v3_project_on", "v3_cross", "v3_dot", "from_arc", "v3_is_zero", "v4_is_zero", "v2_is_zero"}
+                          "v3_project_on", "v3_cross", "v3_dot", "from_arc", "v3_is_zero", "v4_is_zero", "v2_is_zero", "v2_perp_dot",
+                          "v3_cross_both", "v3_dot_both", "v2_perp_dot_both", "v3_angle_both", "v2_angle_both", "v3_project_on_both"}
          /\ (Sc(a, 1) = "from_homogeneous" => a[3].c[4] # Zero)
          /\ r.c[1].c[1] <= 64 /\ r.c[2].c[1] = TRUE
+    \* C10, far = near * 1e3 .. 1e12: accepted, near plane to -1 and far plane to +1 to a few eps
+    [] op = "deep_proj" -> /\ IsIntTup(r, 3) /\ RGt(Sc(a, 2), Zero) /\ r.c[1].c[1] = TRUE /\ r.c[2].c[1] <= 64 /\ r.c[3].c[1] <= 64
+    \* C11, angle of nearly (anti)parallel vectors in 2-D and 3-D: within ten millionths of the small angle, both argument orders
+    [] op = "angle_near_proj" -> /\ IsIntTup(r, 2) /\ Dot(a[1].c, a[1].c) = One /\ r.c[1].c[1] <= 10 /\ r.c[2].c[1] <= 10
+    \* C14, endpoints for nearly equal / nearly opposite unit quaternions: a at t = 0, +-b at t = 1, unit half way (eps)
+    [] op = "lerp_end_proj" -> /\ IsIntTup(r, 3) /\ Dot(a[2].c, a[2].c) = One /\ Dot(a[3].c, a[3].c) = One
+                               /\ r.c[1].c[1] <= 16 /\ r.c[2].c[1] <= 16 /\ r.c[3].c[1] <= 16
+    \* column c of A*B = A*(column c of B) on awkward operands, every operand form                              (C01)
+    [] op = "mm_col_proj" -> IsIntTup(r, 2) /\ r.c[1].c[1] <= 16 /\ r.c[2].c[1] = TRUE
     \* cross(u, u + g w) = g cross(u, w): nearly parallel operands lose nothing beyond eps |u| |v|              (C03)
     [] op = "cross_near_proj" -> IsIntTup(r, 2) /\ r.c[1].c[1] <= 64 /\ r.c[2].c[1] = TRUE
     [] op = "unit_roundtrip" -> r.t = "I" /\ r.c[1] <= 4       \* relative error at most 4 machine epsilons   (C13)
